@@ -156,6 +156,30 @@ func EventStrings(evs []world.Event) []string {
 	return out
 }
 
+var knownLeaked = map[string]bool{}
+
+// newLeaked returns the stack blocks of goroutines that sit in a synctest bubble and were not
+// reported before (bubbles of earlier scenarios keep their leftovers for the life of the process).
+func newLeaked(all string) string {
+	var out []string
+	for _, block := range strings.Split(all, "\n\n") {
+		first := block
+		if i := strings.Index(block, "\n"); i > 0 {
+			first = block[:i]
+		}
+		if !strings.HasPrefix(first, "goroutine ") || !strings.Contains(first, "synctest bubble") {
+			continue
+		}
+		id := strings.Fields(first)[1]
+		if knownLeaked[id] {
+			continue
+		}
+		knownLeaked[id] = true
+		out = append(out, block)
+	}
+	return strings.Join(out, "\n\n")
+}
+
 // leakSites extracts "created by" lines from a synctest deadlock panic message.
 func leakSites(msg string) []string {
 	seen := map[string]bool{}
@@ -212,8 +236,12 @@ func (u *Unit) Scenario(name string, spec any, opts Opts, body func(sc *Scen)) *
 			if r := recover(); r != nil {
 				msg := fmt.Sprint(r)
 				if strings.Contains(msg, "deadlock: main bubble goroutine has exited") {
-					res.Leaked = leakSites(msg)
-					_ = os.WriteFile(filepath.Join(dir, "leak.txt"), []byte(msg), 0o644)
+					// the goroutines left behind stay blocked in the dead bubble: list them
+					buf := make([]byte, 16<<20)
+					buf = buf[:runtime.Stack(buf, true)]
+					dump := newLeaked(string(buf))
+					res.Leaked = leakSites(dump)
+					_ = os.WriteFile(filepath.Join(dir, "leak.txt"), []byte(msg+"\n\n"+dump), 0o644)
 				} else {
 					res.Why = "panic in harness goroutine: " + msg
 					buf := make([]byte, 1<<16)
@@ -257,8 +285,18 @@ func (u *Unit) Scenario(name string, spec any, opts Opts, body func(sc *Scen)) *
 	empty := ""
 	running.Store(&empty)
 	u.emit(res)
+	// a child that has grown fat hands the rest of its units back to the supervisor
+	var ms runtime.MemStats
+	runtime.ReadMemStats(&ms)
+	scenCount++
+	if ms.HeapAlloc > 1500<<20 || scenCount >= 400 {
+		u.emit(map[string]any{"ev": "yield", "heap_mb": ms.HeapAlloc >> 20, "scenarios": scenCount})
+		os.Exit(0)
+	}
 	return res
 }
+
+var scenCount int
 
 func dumpLog(path string, evs []world.Event) {
 	f, err := os.Create(path)
@@ -280,6 +318,8 @@ type Prop struct {
 	Floor func(tier string) []string
 	// Rule says how cases are generated and what makes one distinct and non-trivial.
 	Rule string
+	// RaceUnits lists units that must run in the -race binary.
+	RaceUnits func(tier string) []int
 }
 
 var props = map[string]*Prop{}
